@@ -43,6 +43,7 @@ OptionalBlockRows == 65536        \* rows per block of the optional (null) index
 DenseBlockThreshold == 5120       \* a block with fewer non-null rows is written sparse (sorted u16), otherwise dense
 OptionalBlockVariant(nonNull) == IF nonNull < DenseBlockThreshold THEN "sparse" ELSE "dense"
 FullBlockRows == OptionalBlockRows  \* a block in which every row has a value: its count of non-null rows does not fit 16 bits
+FindBlockLinearMax == 16           \* beyond 16 remaining blocks the block of a rank is found by binary search: empty blocks share their key
 DenseMiniBlockRows == 64          \* a dense block is 1,024 mini blocks of 64 rows (bitvec + rank)
 BlockwiseLinearRows == 512        \* values per block of the block-wise linear codec
 BitpackFastWidth == 32            \* widths up to 32 bits use the u32 fast path of range lookups: bounds clamp at 2^32 - 1
